@@ -298,6 +298,12 @@ pub fn c13(g: &mut G) {
     if g.thorough {
         g.emit(format!("!membuild map {} {} wide 0", 3 * n1, 6 * n1));
     }
+    // the batch entry points, fed by iterators that know / do not know their length, and by streams
+    for fe in ["map_iter_exact", "raw_iter_exact", "set_iter_exact", "map_iter_unknown", "set_iter_unknown", "set_iter_filter", "map_stream", "set_stream"] {
+        if g.thorough || fe.contains("iter") {
+            g.emit(format!("!memfe {} {} {}", fe, n1, 2 * n1));
+        }
+    }
     // model footprint vs hook footprint on small inputs
     let sets = key_sets(g);
     for (i, (_, keys)) in sets.iter().enumerate() {
@@ -399,6 +405,15 @@ pub fn c15(g: &mut G) {
             g.emit(format!("sink 0 default - - _ {} {}", ops, fe));
             g.emit("stream always - -".into());
         }
+    }
+    // the command-line path (sorted `fst set` / `fst map`, `fst union`), onto a fresh path and
+    // with --force onto an existing longer file
+    for (i, what) in ["set", "map", "union", "map", "union", "set"].iter().enumerate() {
+        let mut rng = Rng::new(g.rng.next());
+        let words = random_words(&mut rng, 3 + i * 2, b"abcdefgh", 6);
+        // (no empty key: the sorted `fst set` reader treats an empty line as the end of input)
+        let rows: Vec<String> = words.iter().filter(|w| !w.is_empty()).enumerate().map(|(j, w)| format!("{}:{}", hex(w), 10 * j + 1)).collect();
+        g.emit(format!("!cli {} {} {}", what, if i % 2 == 0 { 0 } else { 700 }, rows.join(",")));
     }
     // the same bytes through a sink that takes at most 64 bytes per call (wide nodes)
     for n in [32usize, 33, 40] {
